@@ -1,4 +1,4 @@
-"""Reproduces C03 findings D1-D9 against the real middleware code (stub bitcoin.core for tx
+"""Reproduces C03 findings D1-D10 against the real middleware code (stub bitcoin.core for tx
 handling, fake device that keeps to its protocol). For each request line the manager must write
 exactly one JSON object with an integer errorcode and must not shut down.
 Exit 0 = all answered; non-zero = defect present.
@@ -84,6 +84,36 @@ cases = [
         "witnessScript": "ab" * 70000, "outpointValue": 1}))),
  ("D9 300 brothers for one block", J({"command": "advanceBlockchain", "version": 5,
         "blocks": [hdr(good_fields)], "brothers": [[hdr(good_fields)] * 300]})),
+]
+def _enc_list(payload):
+    n = len(payload)
+    if n <= 55:
+        return bytes([0xc0 + n]) + payload
+    lb = n.to_bytes((n.bit_length() + 7) // 8, "big")
+    return bytes([0xf7 + len(lb)]) + lb + payload
+
+
+def _nested(depth):
+    x = b"\x80"
+    for _ in range(depth):
+        x = _enc_list(x)
+    return x
+
+
+def deep_header(depth, position):
+    """17-field header one of whose fields is a list nested `depth` levels deep (hand-encoded RLP)."""
+    fields = [b"\x01"] * 17
+    payload = b"".join((_nested(depth) if i == position else f) for i, f in enumerate(fields))
+    return _enc_list(payload).hex()
+
+
+cases += [
+ ("D10 brother with a field nested 500 lists deep", J({"command": "advanceBlockchain", "version": 5,
+        "blocks": [hdr(good_fields)], "brothers": [[deep_header(500, 16)]]})),
+ ("D10 block with a field nested 500 lists deep (advance)", J({"command": "advanceBlockchain", "version": 5,
+        "blocks": [deep_header(500, 0)], "brothers": [[]]})),
+ ("D10 block with a field nested 500 lists deep (ancestor)", J({"command": "updateAncestorBlock", "version": 5,
+        "blocks": [deep_header(500, 0)]})),
 ]
 bad = 0
 for name, raw in cases:
